@@ -1,5 +1,5 @@
 CONSTANTS
-  Variant = "either"
+  Variant = "fixed"
 INIT TraceInit
 NEXT TraceNext
 INVARIANT Consumed
